@@ -26,6 +26,10 @@ func VP_C12_long() {
 		{"1234567890123456789012345678901234", "1234567890123456789012345678901234", 0}, {"1234567890123456789012345678901234567890", "1234567890123456789012345678901234567890", 0},
 		{"0.0000000000000000000000000000000000000001", "1", 40}, {"12345678901234567890.12345678901234", "1234567890123456789012345678901234", 14},
 		{"9223372036854775808e2", "9223372036854775808", -2}, {"92233720368547758.08", "9223372036854775808", 2}, {"010", "10", 0}, {"0777", "777", 0},
+		// exponents beyond the range of binary floating point, subnormal range, short texts
+		{"1e-400", "1", 400}, {"2.5E-330", "25", 331}, {".7e-999", "7", 1000}, {"1.2345e-320", "12345", 324}, {"1e400", "1", -400}, {"9e+999", "9", -999},
+		{"5e-324", "5", 324}, {"4.9e-324", "49", 325}, {"1e-7", "1", 7}, {"1.7976931348623157e308", "17976931348623157", -292}, {"2e308", "2", -308}, {"0.1", "1", 1}, {"1e23", "1", -23},
+		{"9007199254740993", "9007199254740993", 0}, {"0.30000000000000004", "30000000000000004", 17}, {"123456789012345e-300", "123456789012345", 300},
 	}
 	p := pool[vpChoice("lit", len(pool))]
 	code, err := ParseSourceCode([]byte(p.text))
@@ -157,7 +161,7 @@ func VP_C12_literals() {
 	}
 	kind, digits, frac, exp := vpRefLiteral(text)
 	vpAssume(kind != vpLitNotLiteral)
-	pos := vpChoice("ctx", 3)
+	pos := vpChoice("ctx", vpParam("CTX"))
 	var src []byte
 	switch pos {
 	case 0:
@@ -166,6 +170,12 @@ func VP_C12_literals() {
 		src = append(append([]byte("["), text...), ']')
 	case 2:
 		src = append(append([]byte("1?("), text...), []byte("):0")...)
+	case 3: // after another literal
+		src = append(append([]byte("[7, "), text...), ']')
+	case 4: // before a literal with a separator
+		src = append(append([]byte("["), text...), []byte(", 1_0]")...)
+	case 5: // negated, and the same tree evaluated twice
+		src = append([]byte("-"), text...)
 	}
 	code, err := ParseSourceCode(src)
 	vpObserve("src", src, kind, err != nil)
@@ -193,6 +203,25 @@ func VP_C12_literals() {
 		}
 		v = arr[0]
 	}
+	if pos == 3 || pos == 4 {
+		arr, ok := v.([]interface{})
+		vpAssert("C12/literals/array-of-two", ok && len(arr) == 2)
+		if !ok || len(arr) != 2 {
+			return
+		}
+		other, _ := arr[pos-3].(*decimal.Big)
+		vpAssert("C12/literals/neighbour-literal-exact", other != nil && vpBigEq(other, false, uint64(7+3*(pos-3)), 0))
+		v = arr[4-pos]
+	}
+	if pos == 5 {
+		// the second evaluation of the same tree (fresh runner) is the one judged
+		v2, rerr2 := NewRunner().resolve(context.Background(), code.Expression)
+		vpAssert("C12/literals/evaluates-again", rerr2 == nil)
+		if rerr2 != nil {
+			return
+		}
+		v = v2
+	}
 	got, ok := v.(*decimal.Big)
 	vpAssert("C12/literals/is-number", ok && got != nil)
 	if !ok || got == nil {
@@ -213,7 +242,11 @@ func VP_C12_literals() {
 	if !mok {
 		return
 	}
-	vpAssert("C12/literals/non-negative", !got.Signbit())
+	if pos == 5 {
+		vpAssert("C12/literals/negated-both-times", got.Signbit() || coef == 0)
+	} else {
+		vpAssert("C12/literals/non-negative", !got.Signbit())
+	}
 	if coef == 0 {
 		vpAssert("C12/literals/exact-value", m == 0)
 		return
